@@ -4,8 +4,11 @@ import (
 	"fmt"
 
 	abci "github.com/cometbft/cometbft/abci/types"
+	authtypes "github.com/cosmos/cosmos-sdk/x/auth/types"
 	banktypes "github.com/cosmos/cosmos-sdk/x/bank/types"
+	"github.com/ethereum/go-ethereum/common"
 
+	haqqtypes "github.com/haqq-network/haqq/types"
 	erc20types "github.com/haqq-network/haqq/x/erc20/types"
 	evmtypes "github.com/haqq-network/haqq/x/evm/types"
 	lvtypes "github.com/haqq-network/haqq/x/liquidvesting/types"
@@ -72,6 +75,22 @@ func battery(w *world.World) []queryReq {
 	for _, b := range w.App.DaoKeeper.GetAccountsBalances(ctx) {
 		qs = append(qs, queryReq{"/haqq.ucdao.v1.Query/AllBalances", m(&ucdaotypes.QueryAllBalancesRequest{Address: b.Address})})
 	}
+	// every account that carries contract code (whatever its account type): its code and every one of
+	// its storage slots
+	w.App.AccountKeeper.IterateAccounts(ctx, func(acc authtypes.AccountI) bool {
+		ea, ok := acc.(haqqtypes.EthAccountI)
+		if !ok || ea.Type() != haqqtypes.AccountTypeContract {
+			return false
+		}
+		addr := ea.EthAddress()
+		qs = append(qs, queryReq{"/ethermint.evm.v1.Query/Code", m(&evmtypes.QueryCodeRequest{Address: addr.Hex()})},
+			queryReq{"/ethermint.evm.v1.Query/Account", m(&evmtypes.QueryAccountRequest{Address: addr.Hex()})})
+		w.App.EvmKeeper.ForEachStorage(ctx, addr, func(key, _ common.Hash) bool {
+			qs = append(qs, queryReq{"/ethermint.evm.v1.Query/Storage", m(&evmtypes.QueryStorageRequest{Address: addr.Hex(), Key: key.Hex()})})
+			return true
+		})
+		return false
+	})
 	return qs
 }
 
